@@ -58,6 +58,7 @@ def invocations(w):
         add("deletemetadata formatid=%r" % f, argv,
             lambda w, s, f=f: s.delete_metadata(pid, w.ns if f is None else f))
     add("retrieveobject", ["-retrieveobject", "-pid=" + pid], lambda w, s: _read(s.retrieve_object(pid)))
+    add("retrieveobject (other pid)", ["-retrieveobject", "-pid=" + w.pids[1]], lambda w, s: _read(s.retrieve_object(w.pids[1])))
     add("deleteobject", ["-deleteobject", "-pid=" + pid], lambda w, s: s.delete_object(pid))
     for a in ("SHA-256", "md5", "sha3_512", "sha999"):
         add("getchecksum algo=%s" % a, ["-getchecksum", "-pid=" + pid, "-algo=" + a],
@@ -156,7 +157,11 @@ def both(ps, w, C):
         if hasattr(vB, "cid"):
             want = [vB.cid, str(vB.obj_size)] + list(vB.hex_digests.values())
         elif isinstance(vB, bytes):
-            want = [vB[:1000].decode("utf-8")]
+            shown = vB[:1000].decode("utf-8", "ignore")
+            want = [shown]
+            # the client shows exactly the first 1000 bytes of what the API returns, then a newline
+            if not outA.startswith(shown + "\n"):
+                bad.append(("client-shows-other-content-than-api-returns", (outA[:30], shown[:30])))
         elif vB is None:
             want = []
         else:
@@ -222,8 +227,9 @@ def chs_roundtrip(run, tier):
 
 
 def c20_args(tier):
-    return dict(pids=["a", "b"], contents=[b"x", b"0123456789ab"], formats=[None, "c", "bc"], fake_cid=False,
-                sym_dirs=False)
+    return dict(pids=["a", "b"], contents=[b"x", b"0123456789ab", "l1\r\nl2\rl3\n".encode() + ("\u00e9" * 700).encode("utf-8")],
+                formats=[None, "c", "bc"], fake_cid=False, sym_dirs=False,
+                docs=[b"<v0/>", "<v1>\r\n\u00e9</v1>".encode("utf-8")])
 
 
 def replay(tier, payload):
